@@ -14,7 +14,8 @@ _NORM_SEGS = [
     ('std::ops::function::', 'std::ops::'), ('std::ops::drop::', 'std::ops::'), ('std::ops::control_flow::', 'std::ops::'),
     ('std::ops::bit::', 'std::ops::'), ('std::iter::traits::iterator::', 'std::iter::'),
     ('std::iter::traits::collect::', 'std::iter::'), ('libc::unix::timespec', 'libc::timespec'),
-    ('std::sync::mpmc::', 'std::sync::mpsc::'),
+    ('std::sync::mpmc::', 'std::sync::mpsc::'), ('std::thread::functions::', 'std::thread::'),
+    ('std::thread::join_handle::', 'std::thread::'),
 ]
 
 
